@@ -38,3 +38,34 @@ Proof. intros [] []; cbn; auto. Qed.
 (* the table is total and its codes are those the harness compares *)
 Theorem outcome_cells : length (flat_map (fun s => flat_map (fun d => map (dest_outcome s d) all_dopt) all_dstate) all_skind) = 96%nat.
 Proof. reflexivity. Qed.
+
+(* ------------------------------------------------------------------ *)
+(* the table agrees with the component models it was derived from      *)
+(* ------------------------------------------------------------------ *)
+From XcpModel Require Import Base Meta Ops.
+
+(* regular files: whenever the model of CopyHandle::new (Ops.copy_actions_dd, fed with what the cell says about the
+   destination entry) refuses, the cell is Refused *)
+Theorem file_row_refusals_agree : forall d o fc src dst e,
+  o <> ONoClobber -> ce_dst_exists e = exists_follow d -> ce_same_file e = false ->
+  snd (copy_actions_dd (lexists d && negb (exists_follow d)) (is_real_dir d) fc src dst e) = false ->
+  dest_outcome SFile d o = Refused.
+Proof.
+  intros d o fc src dst e Ho He Hs. unfold copy_actions_dd, copy_actions_d, copy_actions. rewrite He, Hs.
+  destruct d, o; try contradiction; cbn; try reflexivity; try discriminate.
+Qed.
+
+(* ... and when that model renames the old entry away (a backup number was chosen) the cell is CreatedBackedUp *)
+Theorem file_row_backup_agrees : forall d, exists_follow d = true -> is_real_dir d = false ->
+  dest_outcome SFile d OBackup = CreatedBackedUp.
+Proof. intros [] He Hd; try discriminate He; try discriminate Hd; reflexivity. Qed.
+
+(* special files: the cell is what Meta.special_worker does with Path::exists() of the entry, except that a directory
+   cannot be unlinked and that an entry exists() does not see (a dangling link) makes mknod fail *)
+Theorem special_row_agrees : forall d o umask src,
+  o <> ONoClobber -> is_real_dir d = false -> (lexists d = exists_follow d) ->
+  (dest_outcome SSpecial d o = Refused <-> special_worker false (exists_follow d) false umask src = None).
+Proof.
+  intros d o umask src Ho Hd Hl. unfold special_worker.
+  destruct d, o; try contradiction; try discriminate Hd; try discriminate Hl; cbn; split; intros H; try discriminate H; try reflexivity.
+Qed.
